@@ -392,6 +392,13 @@ MUTANTS += [
     ("c11-householder-column-out-of-range", ["C11"], [(ORT, "            qv[-1, num_pairs % features] = 1", "            qv[-1, num_pairs] = 1")], "ORTH-INIT"),
 ]
 
+MUTANTS += [
+    ("c02-coupling-writeback-swapped", ["C02"], [(CPL, "        outputs[:, self.identity_features] = identity_split\n        outputs[:, self.transform_features] = transform_split\n", "        outputs[:, self.transform_features] = identity_split\n        outputs[:, self.identity_features] = transform_split\n")], "INV-ROUND"),
+    ("c02-coupling-inverse-net-before-uncond", ["C02"], [(CPL, "        logabsdet = 0.0\n        if self.unconditional_transform is not None:\n            identity_split, logabsdet = self.unconditional_transform.inverse(\n                identity_split, context\n            )\n\n        transform_params = self.transform_net(identity_split, context)", "        transform_params = self.transform_net(identity_split, context)\n        logabsdet = 0.0\n        if self.unconditional_transform is not None:\n            identity_split, logabsdet = self.unconditional_transform.inverse(\n                identity_split, context\n            )\n")], "INV-ROUND"),
+    ("c02-coupling-inverse-uncond-forward", ["C02"], [(CPL, "            identity_split, logabsdet = self.unconditional_transform.inverse(\n                identity_split, context\n            )", "            identity_split, logabsdet = self.unconditional_transform(\n                identity_split, context\n            )")], "INV-ROUND"),
+    ("c02-coupling-inverse-drops-split-logdet", ["C02"], [(CPL, "        logabsdet += logabsdet_split\n", "")], "INV-ROUND"),
+]
+
 # ---- C11 LIN-WORD / LIN-LOGDET on the matrix-word algebra ----
 MUTANTS += [
     ("c11w-lu-weight-order", ["C11"], [(LU, "        return lower @ upper", "        return upper @ lower")], "LIN-WORD"),
@@ -439,6 +446,7 @@ MUTANTS += [
 ]
 
 BENIGN = [
+    ("b-c02-coupling-inverse-tidy", ["C02", "C07", "C01", "C13"], [(CPL, "        logabsdet = 0.0\n        if self.unconditional_transform is not None:\n            identity_split, logabsdet = self.unconditional_transform.inverse(\n                identity_split, context\n            )\n\n        transform_params = self.transform_net(identity_split, context)\n        transform_split, logabsdet_split = self._coupling_transform_inverse(\n            inputs=transform_split, transform_params=transform_params\n        )\n        logabsdet += logabsdet_split\n", "        logabsdet_identity = 0.0\n        if self.unconditional_transform is not None:\n            identity_split, logabsdet_identity = self.unconditional_transform.inverse(\n                identity_split, context\n            )\n\n        transform_split, logabsdet = self._coupling_transform_inverse(\n            inputs=transform_split,\n            transform_params=self.transform_net(identity_split, context),\n        )\n        logabsdet = logabsdet + logabsdet_identity\n")]),
     ("b-c06-inverse-last-pass-outside", ["C06", "C01", "C02", "C16", "C13"], [(AR, "        for _ in range(num_inputs):\n            autoregressive_params = self.autoregressive_net(outputs, context)\n            outputs, logabsdet = self._elementwise_inverse(\n                inputs, autoregressive_params\n            )", "        for _ in range(num_inputs - 1):\n            autoregressive_params = self.autoregressive_net(outputs, context)\n            outputs, _ = self._elementwise_inverse(inputs, autoregressive_params)\n        autoregressive_params = self.autoregressive_net(outputs, context)\n        outputs, logabsdet = self._elementwise_inverse(inputs, autoregressive_params)")]),
     ("b-c03-normal-pow-half", ["C03", "C05"], [("nflows/distributions/normal.py", "        neg_energy = -0.5 * \\\n            torchutils.sum_except_batch(inputs ** 2, num_batch_dims=1)", "        neg_energy = -torchutils.sum_except_batch(inputs.pow(2), num_batch_dims=1) / 2")]),
     ("b-c03-normal-x-times-x", ["C03", "C05"], [("nflows/distributions/normal.py", "            torchutils.sum_except_batch(inputs ** 2, num_batch_dims=1)", "            torchutils.sum_except_batch(inputs * inputs, num_batch_dims=1)")]),
